@@ -238,7 +238,7 @@ def c07(A):
     # foreign / duplicate acknowledgements change nothing
     for (sev, evs) in A.steps:
         s = sev["s"]
-        if s[0] not in ("dupack", "stray") or s[2] not in ("SUBACK", "UNSUBACK"):
+        if s[0] not in ("dupack", "stray", "cross") or s[2] not in ("SUBACK", "UNSUBACK"):
             continue
         ins = [e for e in evs if e["k"] == "in"]
         if not ins:
@@ -248,7 +248,8 @@ def c07(A):
             continue
         # an identifier inherited from an earlier connection is not "foreign"
         ident = ins[0]["pkts"][0]["id"]
-        if any(x.msgId == ident and not x.fired_before(ins[0]["i"]) and not x.called_at_return for x in subs):
+        want_op = "subscribe" if s[2] == "SUBACK" else "unsubscribe"
+        if any(x.msgId == ident and x.op == want_op and not x.fired_before(ins[0]["i"]) and not x.called_at_return for x in subs):
             continue
         o.dec("noop_acks/" + s[2])
         eff = [x for x in evs if x["k"] in ("write", "fire", "cb", "tcall", "exc", "lost")]
